@@ -8,7 +8,8 @@ import Oracle.C01
         col   ::= block/block/...          1..8 blocks, the same shape in both columns
         block ::= v,v,...                  1..200 events, v = the column's value in that event
         v     ::= s<hex, class mixOk> | b0 | b1 | i<int64> | f<hex16> | z (null) | - (the event lacks the column)
-        a column with an f value has no s and no b value (FormatFloat is not modelled; such a column never has a bloom)
+        a column with an f value has no s and no b value (FormatFloat is not modelled; such a column never has a bloom);
+        with limit < 501 a column has no i value together with an s or b value (see colOk)
       → c{size=<n|none> blk=[B;B;..]} d{..}     B ::= - (column not in the block) | <e>:<hex of the column's records>
                                                 e ::= c columnar | d dictionary | m rewritten by the consolidation
 -/
@@ -36,10 +37,19 @@ def isSB : Option Val → Bool
   | some (.str _) | some (.bool _) => true
   | _ => false
 
-def colOk (c : List (List (Option Val))) : Bool :=
+def isI : Option Val → Bool
+  | some (.num .i64 _) => true
+  | _ => false
+
+/-- a cardinality limit below the production value 501 is accepted only for columns that do not hold both a
+string/bool and a number: with a small limit a block can be columnar without holding any string, the writer then
+sizes the column's bloom for 0 entries (`bloom.NewWithEstimates(0, p)`: k = uint(NaN)) and the next insertion
+into that bloom (type consolidation to strings) never returns.  Unreachable with the limit 501 (a block of at
+most 200 events is then never columnar unless it was rewritten), so this is a harness restriction, not a finding. -/
+def colOk (lim : Nat) (c : List (List (Option Val))) : Bool :=
   let all := c.flatten
   1 ≤ c.length && c.length ≤ 8 && c.all (fun b => 1 ≤ b.length && b.length ≤ 200) &&
-  all.all valOk && !(all.any isF && all.any isSB)
+  all.all valOk && !(all.any isF && all.any isSB) && !(decide (lim < 501) && all.any isSB && all.any isI)
 
 def showBlock (lim : Nat) (b : BlockOut) : String :=
   if b.buf.isEmpty then "-"
@@ -57,9 +67,9 @@ def w (args : List String) : String :=
     | some lim, some cs =>
       if lim = 0 ∨ lim > 65535 ∨ toString lim ≠ limTok then "bad-op" else
       match cs with
-      | [c] => if colOk c then showCol "c" lim c else "bad-op"
+      | [c] => if colOk lim c then showCol "c" lim c else "bad-op"
       | [c, d] =>
-        if colOk c && colOk d && c.map List.length == d.map List.length then
+        if colOk lim c && colOk lim d && c.map List.length == d.map List.length then
           showCol "c" lim c ++ " " ++ showCol "d" lim d
         else "bad-op"
       | _ => "bad-op"
